@@ -45,3 +45,6 @@ func SchemaPath(p Path) string {
 	}
 	return s
 }
+
+// PresenceContainers are the instance paths of presence containers (none of them is inside a list).
+var PresenceContainers = map[string]bool{"/pres": true, "/pres2": true, "/ch/gamma": true, "/ch/delta": true, "/cons/mand": true}
